@@ -717,14 +717,11 @@ HAND_PATHS = ["a/./b/../c", "a//b", "/a/b/../../..", "../../a", "a/../..", "/.."
               "a/.../b", "/a/./b/", "//a//b", "a/b/../../../c", "./.", "../.", "/./..", "aa/.a/a.", "/c/d/x", "/c/e/y", "/c", "/c/d/../e/z"]
 
 
-def helper_correspondence(ctx, coq_ok):
-    """loader names, and the posixpath/pathlib fragments of the model vs the real ones on every string over {/ . a} up to length 4 (6) and
-    hand-picked longer ones; the comparison is done in Coq (printing large terms is slow), only the verdicts come back"""
+def helper_prepare(ctx):
+    """(main thread; patches os.getcwd for a moment) loader names, and the posixpath/pathlib fragments of the model vs the real ones on every
+    string over {/ . a} up to length 4 (6) and hand-picked longer ones; the comparison is done in Coq (printing large terms is slow), only the verdicts come back"""
     import posixpath
     from pathlib import PurePosixPath
-    from sqlfluff.core.linter import discovery
-    if not coq_ok:
-        return
     alphabet = ["/", ".", "a"]
     strs = [""] + ["".join(t) for n in range(1, 5 if ctx.tier == "quick" else 7) for t in itertools.product(alphabet, repeat=n)] + HAND_PATHS
     cwd = "/c/d"
@@ -757,9 +754,16 @@ Definition c25_h (r : text * text * text * text * text * option (list text) * bo
 """ % (it.t(cwd), it.t("x/"), it.t("y"), it.t(cwd), it.t("/c/e"))
     defs = it.defs() + body   # the texts are defined before their uses
     terms = ["loader_names"] + ["map c25_h %s" % coq.clist(ch) for ch in coq.chunked(rows, 150)]
-    vals = coq.eval_terms(["Model.Discovery"], terms, defs=defs)
-    if ["".join(chr(c) for c in t) for t in vals[0]] != list(discovery.ignore_file_loaders.keys()):
-        ctx.broken_obligation("constant Model.Discovery.loader_names vs discovery.ignore_file_loaders", repr(list(discovery.ignore_file_loaders)))
+    from sqlfluff.core.linter import discovery
+    return strs, terms, defs, list(discovery.ignore_file_loaders.keys())
+
+
+def helper_evaluate(ctx, prepared):
+    """(background thread; no imports here: the main thread imports sqlfluff modules meanwhile) one coqc run"""
+    strs, terms, defs, loader_keys = prepared
+    vals = eval_terms_bg(["Model.Discovery"], terms, defs=defs)
+    if ["".join(chr(c) for c in t) for t in vals[0]] != loader_keys:
+        ctx.broken_obligation("constant Model.Discovery.loader_names vs discovery.ignore_file_loaders", repr(loader_keys))
     verdicts = [b for v in vals[1:] for b in v]
     ctx.coverage_extra["posixpath_helper_strings"] = len(strs)
     if len(verdicts) != len(strs):
@@ -787,9 +791,18 @@ def run(ctx, coq_ok):
     import threading
     herr = []
 
+    # import everything the real calls need before any thread is started (concurrent first imports deadlock)
+    import re
+    import subprocess
+    import sqlfluff.core.config.file
+    import sqlfluff.core.errors
+    import sqlfluff.core.linter.discovery
+    prepared = helper_prepare(ctx) if coq_ok else None
+
     def hjob():
         try:
-            helper_correspondence(ctx, coq_ok)
+            if prepared is not None:
+                helper_evaluate(ctx, prepared)
         except BaseException as e:
             herr.append(e)
 
@@ -829,7 +842,8 @@ def run(ctx, coq_ok):
             r.run_case("full2", shape, ig, grid_queries(dirs, [R]))
         # working path different from the working directory (a process that changed directory), and the import-time default
         for ig in one_pattern_ignores([R, R + "/sub", R + "/oth"]):
-            r.run_case("full2", shape, ig, grid_queries([R + "/sub", R + "/sub/sub"], [R + "/sub"], wps=(R, R + "/oth", R + "/sub/sub", OUTSIDE, None)))
+            r.run_case("full2", shape, ig, grid_queries([R + "/sub", R + "/sub/sub"], [R + "/sub"], wps=(R, R + "/oth", R + "/sub/sub", OUTSIDE, None))
+                       + grid_queries([R + "/oth"], [R + "/sub"], wps=(R + "/oth/sub",)))   # '../oth' with a working path below the target
         shutil.rmtree(r.top)
         lap("A_full2")
         queue.flush(force=False, threshold=0)   # the bulk of the quick tier: evaluate it while the rest runs
